@@ -10,11 +10,11 @@
 (***************************************************************************)
 EXTENDS LexerAtoms, LexerHandover, TLC
 
-CONSTANTS MaxSegs, Devs, ML
+CONSTANTS MaxSegs, AtomSet, Devs, ML
 VARIABLES hids, hst
 hvars == <<hids, hst>>
 
-Sources == UNION {[1..n -> 1..NAtoms] : n \in 0..MaxSegs}
+Sources == UNION {[1..n -> AtomSet] : n \in 0..MaxSegs}
 Admissible(ids) == /\ \A i \in 1..(Len(ids) - 1) : ~IsLast(ids[i])
                    /\ ~Zone(Src(ids))
 
